@@ -23,9 +23,11 @@ import vlib
 
 LEVEL = "proof"
 MODULE = "Sqfs.Props.C08"
-REQUIRED = ["Sqfs.C08.bw_no_error", "Sqfs.C08.bw_readback", "Sqfs.C08.bw_share_sound", "Sqfs.C08.bw_share_complete",
-            "Sqfs.C08.bw_refines_spec", "Sqfs.C08.bw_checksum_irrelevant",
-            "Sqfs.C08.frag_no_error", "Sqfs.C08.frag_sound", "Sqfs.C08.frag_share", "Sqfs.C08.frag_lookup_unique"]
+REQUIRED = ["Sqfs.C08.bw_no_error", "Sqfs.C08.bw_readback", "Sqfs.C08.bw_readback_all", "Sqfs.C08.bw_fragblocks_kept",
+            "Sqfs.C08.bw_share_sound", "Sqfs.C08.bw_share_complete",
+            "Sqfs.C08.bw_refines_spec", "Sqfs.C08.bw_checksum_irrelevant", "Sqfs.C08.bw_translate",
+            "Sqfs.C08.frag_no_error", "Sqfs.C08.frag_sound", "Sqfs.C08.frag_share", "Sqfs.C08.frag_lookup_unique",
+            "Sqfs.C08.stream_wfS", "Sqfs.C08.stream_readback", "Sqfs.C08.stream_frag_link", "Sqfs.C08.stream_frag_sound", "Sqfs.C08.stream_no_error"]
 
 F_DONT_COMPRESS, F_DONT_HASH, F_DONT_FRAGMENT, F_DONT_DEDUP, F_IGNORE_SPARSE = 1, 2, 4, 8, 0x10
 F_SPARSE, F_FIRST, F_LAST, F_IS_FRAGMENT, F_FRAGBLK, F_COMPRESSED = 0x400, 0x800, 0x1000, 0x2000, 0x4000, 0x8000
@@ -44,6 +46,24 @@ def build_harness(ctx, serial=False):
     lib = ctx.build_lib("c08ser" if serial else "c08lib", exclude=("lib/util/src/xxhash.c",), serial_pool=serial)
     return ctx.cc("h_c08s" if serial else "h_c08", ["h_c08.c", "weak_xxh.c", str(lib)],
                   libs=["-Wl,--wrap=hash_table_search_pre_hashed", "-Wl,--wrap=hash_table_insert_pre_hashed"] + vlib.CODEC_LIBS)
+
+
+def drv(ctx, lines, what):
+    """run the model driver on `lines`; exactly one answer line per input line, else the check infrastructure failed"""
+    if not lines:
+        return []
+    out = ctx.driver(["c08"], "\n".join(lines) + "\n")
+    if len(out) != len(lines):
+        raise vlib.CheckFailure("model driver answered %d lines to %d input lines (%s)" % (len(out), len(lines), what))
+    return out
+
+
+def zip_eq(what, *seqs):
+    """zip() that refuses sequences of different length (a short stream must never silently drop comparisons)"""
+    n = len(seqs[0])
+    if any(len(x) != n for x in seqs):
+        raise vlib.CheckFailure("internal: streams of different length in %s: %s" % (what, [len(x) for x in seqs]))
+    return zip(*seqs)
 
 
 def run_harness(ctx, harness, text, timeout=600):
@@ -130,8 +150,73 @@ def gen_bw_script(rng, small=True):
     return pre, calls, honest
 
 
-def bw_script_lines(pre, calls, wrflags=0):
-    lines = ["bw-init %s %d" % (tok(pre), wrflags)]
+def gen_bw_big_script(rng):
+    """multi-chunk comparisons of check_file_range_equal (4096-byte chunks of an 8192-byte scratch buffer): files of 1..3
+    blocks of 4095..9000 bytes whose stored sizes and checksums all collide and whose bytes differ only *behind* the first
+    chunk (sometimes only in the very last byte), mixed with exact repeats (which must share)"""
+    sizes = rng.sample([4095, 4096, 4097, 5000, 8191, 8192, 8193, 9000], rng.randint(1, 2))
+    letters = rng.sample(range(1, 256), 2)
+    nblk = rng.randint(1, 3)
+    base = [bytes([letters[0]]) * rng.choice(sizes) for _ in range(nblk)]
+    total = sum(map(len, base))
+    files = [base]
+    pre = bytes(rng.getrandbits(8) for _ in range(rng.choice([0, 3, 96])))
+    calls = []
+    for _ in range(rng.randint(3, 6)):
+        r = rng.random()
+        if r < 0.3:
+            blocks = list(rng.choice(files))                                  # exact repeat: must share
+        else:
+            blocks = [bytearray(x) for x in rng.choice(files)]
+            # one changed byte at a file offset in a chunk behind the first one (or, rarely, anywhere)
+            lo = 4096 if total > 4096 and rng.random() < 0.9 else 0
+            pos = rng.choice([total - 1, rng.randrange(lo, total), (rng.randrange(lo, total) // 4096) * 4096 if total > 4096 else 0])
+            pos = max(lo, min(total - 1, pos))
+            for x in blocks:
+                if pos < len(x):
+                    x[pos] = letters[1] if x[pos] != letters[1] else letters[0]
+                    break
+                pos -= len(x)
+            blocks = [bytes(x) for x in blocks]
+        files.append(blocks)
+    for blocks in files:
+        for k, bdata in enumerate(blocks):
+            fl = (F_FIRST if k == 0 else 0) | (F_LAST if k == len(blocks) - 1 else 0)
+            calls.append((5, fl, bdata))                                      # one checksum for everything
+        if rng.random() < 0.3:
+            calls.append((5, F_FRAGBLK, bytes([letters[1]]) * rng.choice([1, 7, 4097])))
+    return pre, calls, False
+
+
+def gen_bw_long_script(rng):
+    """histories beyond INIT_BLOCK_COUNT = 128 entries (array_t growth): 150..400 stored one- and two-byte blocks, every
+    file after the first 130 blocks repeats or nearly repeats an early one"""
+    letters = rng.sample(range(1, 256), 2)
+    calls, files = [], []
+    stored = 0
+    want = rng.randint(150, 400)
+    while stored < want:
+        if files and (stored > 130 or rng.random() < 0.3):
+            blocks = list(rng.choice(files))
+            if rng.random() < 0.4:
+                k = rng.randrange(len(blocks))
+                blocks[k] = bytes([letters[1]]) * len(blocks[k])
+        else:
+            blocks = [bytes(rng.choice(letters) for _ in range(rng.choice([1, 2]))) for _ in range(rng.randint(1, 5))]
+        files.append(blocks)
+        dd = F_DONT_DEDUP if rng.random() < 0.5 else 0                     # keeps the history growing
+        for k, bdata in enumerate(blocks):
+            fl = dd | (F_FIRST if k == 0 else 0) | (F_LAST if k == len(blocks) - 1 else 0)
+            calls.append((len(bdata), fl, bdata))
+            stored += 1
+        if rng.random() < 0.1:
+            calls.append((1, F_FRAGBLK, bytes([rng.choice(letters)])))
+            stored += 1
+    return b"", calls, False
+
+
+def bw_script_lines(pre, calls, wrflags=0, base=0):
+    lines = ["bw-init %s %d" % (tok(pre), wrflags) + (" %d" % base if base else "")]
     for (c, fl, b) in calls:
         lines.append("bw-write %08x %x %s" % (c, fl, tok(b)))
     lines.append("bw-file")
@@ -139,114 +224,170 @@ def bw_script_lines(pre, calls, wrflags=0):
 
 
 def bw_payloads(calls):
-    """specification side (Sqfs.Spec.BlockWriter.payloads) recomputed independently in Python"""
-    acc, out = b"", []
+    """specification side (Sqfs.Spec.BlockWriter.claimsOf) recomputed independently in Python: per call the bytes the
+    returned location has to hold for ever — a file's stored bytes for a LAST call, the block itself for a stored call
+    made outside every file (fragment blocks), nothing for calls inside a file"""
+    acc, out, opened = b"", [], False
     for (c, fl, b) in calls:
+        stored = len(b) and not (fl & F_SPARSE)
         if fl & F_FIRST:
             acc = b""
-        if len(b) and not (fl & F_SPARSE):
+        if stored:
             acc += b
-        out.append(acc if fl & F_LAST else None)
+        if fl & F_LAST:
+            out.append(acc)
+            opened = False
+        else:
+            out.append(b if stored and not (opened or fl & F_FIRST) else None)
+            opened = opened or bool(fl & F_FIRST)
     return out
 
 
 def bw_oracle(calls, results, final):
     """read-back oracle on the implementation's answers; returns list of problems"""
     bad = []
-    for k, (p, res) in enumerate(zip(bw_payloads(calls), results)):
-        if p is None:
-            continue
+    for k, (p, res) in enumerate(zip_eq("bw_oracle", bw_payloads(calls), results)):
         if not res.startswith("ok "):
             bad.append("call %d: %s" % (k, res))
             continue
+        if p is None:
+            continue
         loc = int(res.split()[1])
         if final[loc:loc + len(p)] != p:
-            bad.append("file ending at call %d: location %d holds %s, payload %s" % (k, loc, final[loc:loc + len(p)].hex(), p.hex()))
+            bad.append("%s at call %d: location %d holds %s, expected %s" % (
+                "file ending" if calls[k][1] & F_LAST else "fragment block", k, loc, final[loc:loc + len(p)].hex()[:60], p.hex()[:60]))
     return bad
 
 
+def shift_base(lines, base):
+    """answers of the real writer working at file offsets >= base (virtual zero bytes below) → offsets relative to base,
+    which is what the model run on an empty prefix answers"""
+    out = []
+    for l in lines:
+        t = l.split()
+        if t and t[0] == "ok" and len(t) == 4:
+            loc, size = int(t[1]), int(t[2])
+            out.append("ok %d %d %s" % (loc - base if loc >= base else loc, size - base, t[3]))
+        else:
+            out.append(l)
+    return out
+
+
 def check_bw(ctx, harness, n_scripts, stats):
-    scripts = []
+    scripts = []          # (pre, calls, name, base)
     cdir = vlib.CORPUS / "C08"
-    if cdir.exists():
-        for p in sorted(cdir.glob("bw-*.json")):
-            d = json.loads(p.read_text())
-            scripts.append((untok(d["pre"]), [(int(c, 16), int(f, 16), untok(b)) for c, f, b in d["calls"]], "corpus:" + p.name))
+    for p in sorted(cdir.glob("bw-*.json")):
+        d = json.loads(p.read_text())
+        scripts.append((untok(d["pre"]), [(int(c, 16), int(f, 16), untok(b)) for c, f, b in d["calls"]], "corpus:" + p.name, int(d.get("base", 0))))
     honest_scripts = []
     for i in range(n_scripts):
         pre, calls, honest = gen_bw_script(ctx.rng, small=ctx.quick() or i % 4 != 0)
-        scripts.append((pre, calls, "gen:%d" % i))
+        base = 0
+        if i % 10 == 9:
+            # the same kind of script at file offsets around 4 GiB: the harness' file reports `base` more bytes than it stores
+            # (virtual zeros), so a 32-bit offset anywhere in block_writer.c / file_cmp.c compares or returns the wrong range
+            base = (1 << 32) - ctx.rng.choice([0, 1, 3, 7, 20, 60]) if ctx.rng.random() < 0.8 else (1 << 32) * ctx.rng.choice([1, 2, 5]) + ctx.rng.randrange(100)
+            pre = b""
+            stats["bw_4gib_scripts"] += 1
+        scripts.append((pre, calls, "gen:%d" % i, base))
         if honest:
             honest_scripts.append(len(scripts) - 1)
-    all_lines, spans = [], []
-    for pre, calls, name in scripts:
-        ls = bw_script_lines(pre, calls)
+    for i in range(n_bw_big(ctx)):
+        pre, calls, _ = gen_bw_big_script(ctx.rng)
+        scripts.append((pre, calls, "big:%d" % i, 0))
+        stats["bw_multichunk_scripts"] += 1
+    for i in range(n_bw_long(ctx)):
+        pre, calls, _ = gen_bw_long_script(ctx.rng)
+        scripts.append((pre, calls, "long:%d" % i, 0))
+        stats["bw_long_history_scripts"] += 1
+    all_lines, model_lines, spans = [], [], []
+    for pre, calls, name, base in scripts:
+        ls = bw_script_lines(pre, calls, base=base)
         spans.append((len(all_lines), len(ls)))
         all_lines += ls
+        model_lines += bw_script_lines(pre, calls)
     text = "\n".join(all_lines) + "\n"
     impl, rc, err = run_harness(ctx, harness, text)
     if impl is None or rc != 0 or len(impl) != len(all_lines):
         k = len(impl) if impl is not None else 0
         # find the script that contains line k
         which = next((i for i, (a, n) in enumerate(spans) if a <= k < a + n), len(spans) - 1)
-        pre, calls, name = scripts[which]
-        ctx.violation("bw-crash:" + vlib.sha(json.dumps(bw_script_lines(pre, calls)))[:12],
+        pre, calls, name, base = scripts[which]
+        ctx.violation("bw-crash:" + vlib.sha(json.dumps(bw_script_lines(pre, calls, base=base)))[:12],
                       "real block writer aborted (rc=%s) in script %s: %s" % (rc, name, err[-500:]),
-                      {"mode": "bw", "lines": bw_script_lines(pre, calls), "stderr": err})
+                      {"mode": "bw", "lines": bw_script_lines(pre, calls, base=base), "stderr": err})
         return
-    model = ctx.driver(["c08"], text)
+    model = drv(ctx, model_lines, "bw scripts")
     # the checksum-free specification (Spec.BlockWriter.specRun, theorem bw_refines_spec) against the real code, on the
     # scripts whose checksums are a function of the data
     sp_lines, sp_spans = [], []
     for k in honest_scripts:
-        pre, calls, name = scripts[k]
+        pre, calls, name, base = scripts[k]
         ls = ["sp-init " + tok(pre)] + ["sp-write %x %s" % (fl, tok(b)) for (c, fl, b) in calls]
         sp_spans.append((k, len(sp_lines), len(ls)))
         sp_lines += ls
-    sp_out = ctx.driver(["c08"], "\n".join(sp_lines) + "\n") if sp_lines else []
+    sp_out = drv(ctx, sp_lines, "sp scripts")
+    # the Lean specification predicates (Spec/BlockWriter.lean) evaluated on the implementation's calls, locations and file
+    mon_lines, mon_at = [], []
+    for (a, n), (pre, calls, name, base) in zip_eq("bw mon", spans, scripts):
+        il = shift_base(impl[a:a + n], base)
+        if not (il[-1].startswith("file ") and all(r.startswith("ok ") for r in il[1:-1])):
+            mon_at.append(None)
+            continue
+        mon_lines.append("mon-init")
+        for (c, fl, b), r in zip_eq("bw mon calls", calls, il[1:-1]):
+            mon_lines.append("mon-call %x %x %s %s" % (c, fl, tok(b), r.split()[1]))
+        mon_lines.append("mon-eval " + il[-1].split()[1])
+        mon_at.append(len(mon_lines) - 1)
+    mon_out = drv(ctx, mon_lines, "bw monitor")
     for k, a0, n0 in sp_spans:
         a, n = spans[k]
-        if sp_out[a0 + 1:a0 + n0] != impl[a + 1:a + n - 1]:
-            d = vlib.diff_streams(sp_out[a0 + 1:a0 + n0], impl[a + 1:a + n - 1])[0]
+        il = shift_base(impl[a:a + n], scripts[k][3])
+        if sp_out[a0 + 1:a0 + n0] != il[1:n - 1]:
+            d = vlib.diff_streams(sp_out[a0 + 1:a0 + n0], il[1:n - 1])[0]
             stats["disagreements"] += 1
             ctx.violation("bw-spec:" + vlib.sha(json.dumps(all_lines[a:a + n]))[:12],
                           "block writer differs from the checksum-free specification at call %d of script %s (impl=%s spec=%s)" % (
-                              d, scripts[k][2], impl[a + 1 + d] if a + 1 + d < a + n - 1 else None, sp_out[a0 + 1 + d] if d < n0 - 1 else None),
+                              d, scripts[k][2], il[1 + d] if 1 + d < n - 1 else None, sp_out[a0 + 1 + d] if d < n0 - 1 else None),
                           {"mode": "bw", "lines": all_lines[a:a + n], "spec": sp_out[a0:a0 + n0]}, found_input=False)
         stats["bw_spec_scripts"] += 1
-    for (a, n), (pre, calls, name) in zip(spans, scripts):
-        il, ml = impl[a:a + n], model[a:a + n]
+    for (a, n), (pre, calls, name, base), mk in zip_eq("bw scripts", spans, scripts, mon_at):
+        il, ml = shift_base(impl[a:a + n], base), model[a:a + n]
         final = untok(il[-1].split()[1]) if il[-1].startswith("file ") else b""
         bad = bw_oracle(calls, il[1:-1], final)
         if final[:len(pre)] != pre:
             bad.append("bytes before the data area changed")
         stats["bw_scripts"] += 1
         stats["bw_calls"] += len(calls)
+        stats["bw_max_history"] = max(stats["bw_max_history"], max([int(r.split()[3]) for r in il[1:-1] if r.startswith("ok ")] or [0]))
+        stats["bw_fragment_block_calls"] += sum(1 for (c, fl, b) in calls if fl & F_FRAGBLK)
         if stats["bw_scripts"] in (7, 1000):
             ctx.c08_samples.append({"kind": "bw", "script": all_lines[a:a + n][:12], "impl": il[:12], "model": ml[:12]})
         # a LAST call after which the file is shorter than "size before + bytes stored" was a deduplication hit
         sizes = [int(r.split()[2]) for r in il[1:-1] if r.startswith("ok ")]
-        stats["bw_truncating_scripts"] += 1 if any(
-            r.startswith("ok ") and (fl & F_LAST) and int(r.split()[2]) < prev + (len(b) if len(b) and not fl & F_SPARSE else 0)
-            for (c, fl, b), r, prev in zip(calls, il[1:-1], [len(pre)] + sizes)) else 0
+        if len(sizes) == len(calls):
+            stats["bw_truncating_scripts"] += 1 if any(
+                (fl & F_LAST) and sz < prev + (len(b) if len(b) and not fl & F_SPARSE else 0)
+                for (c, fl, b), sz, prev in zip_eq("bw sizes", calls, sizes, [len(pre)] + sizes[:-1])) else 0
+        key = vlib.sha(json.dumps(all_lines[a:a + n]))[:12]
+        if mk is not None:
+            stats["bw_monitor_evals"] += 1
+            if mon_out[mk] != "mon 1 1 1 1 1 1" and not bad:
+                names = ["wf", "wfS", "readbackOk", "holdsAll", "fragBlocksOk", "shareCompleteOk"]
+                failed = [nm for nm, v in zip_eq("mon", names, mon_out[mk].split()[1:]) if v != "1"]
+                if set(failed) <= {"wf", "wfS"}:
+                    raise vlib.CheckFailure("generated bw script %s violates the call protocol (%s): generator bug" % (name, failed))
+                ctx.violation("bw-readback:" + key, "Lean specification predicate(s) %s fail on the implementation's output (script %s)" % (failed, name),
+                              {"mode": "bw", "lines": all_lines[a:a + n], "impl": il, "monitor": mon_out[mk]})
+                continue
         if bad:
-            ctx.violation("bw-readback:" + vlib.sha(json.dumps(all_lines[a:a + n]))[:12],
-                          "block writer hands out a location that does not hold the file's bytes: %s" % "; ".join(bad[:3]),
+            ctx.violation("bw-readback:" + key,
+                          "block writer hands out a location that does not hold the bytes it stands for: %s" % "; ".join(bad[:3]),
                           {"mode": "bw", "lines": all_lines[a:a + n], "impl": il, "model": ml, "problems": bad})
         elif il != ml:
             d = vlib.diff_streams(il, ml)[0]
             stats["disagreements"] += 1
-            # the Lean specification predicate (Spec.BlockWriter.readbackOk, one conjunct per file) evaluated by the
-            # model driver on the *implementation's* bytes and locations
-            mon = ["mon-slice %s %s %s" % (tok(final), r.split()[1], tok(p)) for p, r in zip(bw_payloads(calls), il[1:-1])
-                   if p is not None and r.startswith("ok ")]
-            mres = ctx.driver(["c08"], "\n".join(mon) + "\n") if mon else []
-            if any(x != "1" for x in mres):
-                ctx.violation("bw-readback:" + vlib.sha(json.dumps(all_lines[a:a + n]))[:12],
-                              "Lean read-back predicate fails on the implementation's output (script %s)" % name,
-                              {"mode": "bw", "lines": all_lines[a:a + n], "impl": il, "monitor": mres})
-                continue
-            ctx.violation("bw-corr:" + vlib.sha(json.dumps(all_lines[a:a + n]))[:12],
+            ctx.violation("bw-corr:" + key,
                           "block writer and model disagree at line %d of script %s (impl=%s model=%s); read-back oracle holds" % (
                               d, name, il[d][:80] if d < len(il) else None, ml[d][:80] if d < len(ml) else None),
                           {"mode": "bw", "lines": all_lines[a:a + n], "impl": il, "model": ml}, found_input=False)
@@ -266,9 +407,30 @@ def toy_uncompress(b, limit):
     return bytes(out)
 
 
-def gen_bp_script(rng, big=False):
+def gen_bp_script(rng, big=False, many_tails=False):
     """files for the real block processor: few distinct full blocks and few distinct tails of equal sizes, so that
-    with a 0..8-bit checksum different contents collide on (size, checksum) all the time"""
+    with a 0..8-bit checksum different contents collide on (size, checksum) all the time.
+    many_tails: 40..300 *distinct* tail ends under a 0..3-bit checksum, each submitted once or twice: the fragment hash
+    table (lib/util/src/hash_table.c: 2, 4, 8, 16, 32, … entries) is re-hashed 5..8 times with long collision chains, and
+    every later duplicate must still be found"""
+    if many_tails:
+        B = rng.choice([8, 16])
+        ntails = rng.randint(40, 300)
+        alpha = rng.sample(range(1, 256), 3)
+        tails = set()
+        while len(tails) < ntails:
+            tails.add(bytes(rng.choice(alpha) for _ in range(rng.randint(max(1, B - 3), B - 1))))
+        tails = sorted(tails)
+        rng.shuffle(tails)
+        files = [(t, 0, 0) for t in tails]
+        for _ in range(ntails // 2):                       # duplicates, inserted anywhere after the original
+            k = rng.randrange(len(files))
+            files.insert(rng.randrange(k + 1, len(files) + 1), files[k])
+        full = bytes(rng.choice(alpha) for _ in range(B))
+        for _ in range(rng.randint(0, 6)):                 # a few files with full blocks in between
+            files.insert(rng.randrange(len(files) + 1), (full * rng.randint(1, 2) + rng.choice(tails), 0, 0))
+        return {"B": B, "codec": rng.choice(["toy", "none"]), "workers": rng.choice([1, 2, 4]), "backlog": rng.choice([3, 8, 30]),
+                "hashbits": rng.choice([0, 1, 2, 3]), "pre": b"", "files": files, "sync_after": []}
     if big:
         B = 4096
         hashbits = rng.choice([0, 1, 2, 4, 8])
@@ -352,7 +514,7 @@ def parse_bp_output(out):
             continue
         if t[0] in ("ok", "err", "bad-op"):
             res["ops"].append(l)
-        elif t[0] in ("W", "T", "FR", "E"):
+        elif t[0] in ("W", "T", "FR", "E", "S", "SC", "SF", "D"):
             res["events"].append(t)
         elif t[0] == "I":
             if t[2] == "none":
@@ -470,17 +632,120 @@ def fd_script(sc, res):
     return (lines, meta), None
 
 
-def check_bp_one(ctx, sc, out, stats, name):
+def st_script(sc, res):
+    """script for the call-stream model (Sqfs.C08Stream) that follows the real main thread's event order (S/SC/SF/D/W lines
+    of the harness log); returns ((lines, expect), None) or (None, why). expect[i] = what answer i must be: ("eq", text) |
+    ("prefix", text) | ("deq", real D line, following SC index or None) | ("fin", index or None) | ("any",)"""
+    B = sc["B"]
+    ev = res["events"]
+    subs = [t for t in ev if t[0] in ("S", "SC", "SF")]
+    deqs = [t for t in ev if t[0] == "D"]
+    if len(subs) != len(deqs):
+        return None, "%d blocks submitted to the pool, %d dequeued" % (len(subs), len(deqs))
+    lines = ["st-init %d %s %s" % (B, "toy" if sc["codec"] == "toy" else "table", tok(sc["pre"]))]
+    expect = [("eq", "ok")]
+    # what the implementation's workers computed: checksum function and (real codecs) compressor as tables; the pool is a
+    # FIFO (include/util/threadpool.h, C09), so the k-th block submitted is the k-th block dequeued
+    seen_h, seen_c = {}, {}
+    for su, de in zip_eq("st pairs", subs, deqs):
+        data_in = su[-1]
+        fl_out = int(de[1], 16)
+        if data_in != "-" and not fl_out & F_SPARSE and not fl_out & F_DONT_HASH:
+            if seen_h.setdefault(data_in, de[2]) != de[2]:
+                return None, "the checksum is not a function of the data: %s gives %s and %s" % (data_in[:40], seen_h[data_in], de[2])
+        if fl_out & F_COMPRESSED and sc["codec"] != "toy":
+            seen_c[data_in] = de[3]
+    for d, c in seen_h.items():
+        lines.append("st-hash %s %s" % (d, c)); expect.append(("eq", "ok"))
+    for d, c in seen_c.items():
+        lines.append("st-cmp %s %s" % (d, c)); expect.append(("eq", "ok"))
+    for (data, flags, _) in sc["files"]:
+        lines.append("st-file %x %s" % (flags, tok(data))); expect.append(("prefix", "blocks "))
+    finished = False
+    for k, t in enumerate(ev):
+        if t[0] == "S":
+            lines.append("st-submit"); expect.append(("eq", " ".join(t)))
+        elif t[0] == "D":
+            nxt = next((u for u in ev[k + 1:] if u[0] in ("S", "SC", "SF", "D", "W")), None)
+            lines.append("st-dequeue"); expect.append(("deq", " ".join(t), int(nxt[2]) if nxt and nxt[0] == "SC" else None))
+        elif t[0] == "W":
+            lines.append("st-complete"); expect.append(("eq", " ".join(t)))
+        elif t[0] == "SF":
+            lines.append("st-finish"); expect.append(("fin", int(t[2])))
+            finished = True
+    if not finished:
+        lines.append("st-finish"); expect.append(("fin", None))
+    lines += ["st-tbl", "st-bytes", "st-check"]
+    expect += [("eq", "tbl " + (",".join("%d:%x" % res["frag"][i] for i in sorted(res["frag"])) or "-")),
+               ("eq", "file " + tok(res["file"])), ("eq", "check 1 1 1 1 1")]
+    return (lines, expect), None
+
+
+def st_compare(sc, res, lines, expect, out):
+    """first disagreement between the call-stream model and the real main thread, or None"""
+    B = sc["B"]
+    tails = [k for k, (data, flags, _) in enumerate(sc["files"]) if len(data) % B and not flags & F_DONT_FRAGMENT]
+    ti = 0
+    for l, e, m in zip_eq("st answers", lines, expect, out):
+        if e[0] == "eq":
+            if m != e[1]:
+                return "%s: impl '%s' model '%s'" % (l, e[1][:90], m[:90])
+        elif e[0] == "prefix":
+            if not m.startswith(e[1]):
+                return "%s: model '%s'" % (l, m[:90])
+        elif e[0] == "fin":
+            want = "FIN none" if e[1] is None else "FIN close %d " % e[1]
+            if not (m == want or (e[1] is not None and m.startswith(want))):
+                return "finish: impl closes fragment block %s, model '%s'" % (e[1], m)
+        elif e[0] == "deq":
+            if not m.startswith(e[1] + " "):
+                return "block returned by the pool: impl '%s' model '%s'" % (e[1][:90], m[:90])
+            what = m[len(e[1]) + 1:].split()
+            closed = int(what[what.index("close") + 1]) if "close" in what else None
+            if closed != e[2]:
+                return "after '%s': impl hands fragment block %s to the pool, model %s" % (e[1][:60], e[2], closed)
+            if what[0] == "frag":
+                if ti >= len(tails):
+                    return "more tail ends dequeued than submitted"
+                ino = res["inodes"][tails[ti]]
+                ti += 1
+                want = ["frag", "sparse"] if ino["frag"] == (0xFFFFFFFF, 0xFFFFFFFF) else ["frag", "loc", str(ino["frag"][0]), str(ino["frag"][1])]
+                if what[:len(want)] != want:
+                    return "tail end of file %d: inode says %s, model '%s'" % (tails[ti - 1], ino["frag"], " ".join(what))
+    if ti != len(tails):
+        return "%d tail ends dequeued, %d submitted" % (ti, len(tails))
+    return None
+
+
+def bp_model_script(sc, res):
+    """everything the model driver is asked about one bp script: (lines, parts) with parts = dict name -> (start, count,
+    meta)"""
+    calls = [t for t in res["events"] if t[0] == "W"]
+    bw_lines = ["bw-init %s 0" % tok(sc["pre"])] + ["bw-write %s %s %s" % (t[1], t[2], t[3]) for t in calls] + ["bw-file"]
+    parts = {"bw": (0, len(bw_lines), None)}
+    lines = list(bw_lines)
+    fd, err = fd_script(sc, res)
+    parts["fd_err"] = err
+    if fd is not None:
+        parts["fd"] = (len(lines), len(fd[0]), fd)
+        lines += fd[0]
+    # the Lean specification predicates on the implementation's own call stream, locations and output bytes
+    if all(t[4] == "ok" for t in calls) and res["file"] is not None:
+        mon = ["mon-init"] + ["mon-call %s %s %s %s" % (t[1], t[2], t[3], t[5]) for t in calls] + ["mon-eval " + tok(res["file"])]
+        parts["mon"] = (len(lines), len(mon), None)
+        lines += mon
+    stc, err = st_script(sc, res)
+    parts["st_err"] = err
+    if stc is not None:
+        parts["st"] = (len(lines), len(stc[0]), stc)
+        lines += stc[0]
+    return lines, parts
+
+
+def check_bp_one(ctx, sc, res, model, parts, stats, name):
     """all oracles for one script; returns list of (kind, message) problems. kind: 'spec' (property violated on the
     implementation) or 'corr' (model and code disagree)"""
     problems = []
-    res = parse_bp_output(out)
-    nops = len(bp_script_lines(sc)) - 1
-    if res["end"] != 0 or any(o != "ok" for o in res["ops"]) or len(res["ops"]) != nops:
-        problems.append(("spec", "packing failed: ops=%s end=%s" % ([o for o in res["ops"] if o != "ok"][:3], res["end"])))
-        return problems, res
-    if res["rderr"]:
-        problems.append(("spec", "data reader could not be set up: " + res["rderr"]))
     B = sc["B"]
     # (1) the property's oracle, by the real reader and by raw offsets
     for k, (data, flags, _) in enumerate(sc["files"]):
@@ -510,50 +775,77 @@ def check_bp_one(ctx, sc, out, stats, name):
         if stored != sum(len(t) for t, _ in tails):
             problems.append(("spec", "fragment blocks hold %d bytes but the distinct (tail end, dont_compress) pairs total %d: equal fragments stored twice or lost" % (
                 stored, sum(len(t) for t, _ in tails))))
-    # (3) block-writer model on the implementation's own call trace
-    calls = [t for t in res["events"] if t[0] in ("W",)]
-    # the hypothesis `wf` of the block-writer theorems is a fact about the block processor's call stream: check it
-    opened = False
-    for t in calls:
-        fl = int(t[2], 16)
-        if fl & F_LAST:
-            if not (opened or fl & F_FIRST):
-                problems.append(("corr", "write_data_block call stream violates the FIRST/LAST protocol assumed by bw_readback (LAST without FIRST)"))
-                break
-            opened = False
-        elif fl & F_FIRST:
-            opened = True
-    bw_lines = ["bw-init %s 0" % tok(sc["pre"])] + ["bw-write %s %s %s" % (t[1], t[2], t[3]) for t in calls] + ["bw-file"]
-    # (4) fragment model on the implementation's event order
-    fd, err = fd_script(sc, res)
-    if fd is None:
-        problems.append(("corr", "fragment events do not line up with the submitted files: " + err))
-        fd = ([], [])
-    text = "\n".join(bw_lines + fd[0]) + "\n"
-    model = ctx.driver(["c08"], text)
-    mb, mf = model[:len(bw_lines)], model[len(bw_lines):]
-    for t, m in zip(calls, mb[1:-1]):
+        stats["bp_max_distinct_tails"] = max(stats["bp_max_distinct_tails"], len(tails))
+    # (3) the hypotheses `wf` / `wfS` of the block-writer theorems are facts about the block processor's call stream, and the
+    #     conclusions are facts about its output: the Lean predicates evaluated on what the implementation did
+    calls = [t for t in res["events"] if t[0] == "W"]
+    if "mon" in parts:
+        a, n, _ = parts["mon"]
+        names = ["wf", "wfS", "readbackOk", "holdsAll", "fragBlocksOk", "shareCompleteOk"]
+        vals = model[a + n - 1].split()
+        if vals[0] != "mon" or len(vals) != 7:
+            raise vlib.CheckFailure("monitor answered '%s'" % model[a + n - 1])
+        failed = [nm for nm, v in zip_eq("mon", names, vals[1:]) if v != "1"]
+        stats["bp_monitor_evals"] += 1
+        if set(failed) & {"wf", "wfS"}:
+            problems.append(("corr", "the write_data_block call stream of the block processor violates the protocol assumed by the block-writer "
+                                     "theorems (%s): %s" % (", ".join(failed), "LAST without FIRST" if "wf" in failed else
+                                                            "a fragment block is written between a FIRST and its LAST")))
+        if set(failed) - {"wf", "wfS"}:
+            problems.append(("spec", "Lean specification predicate(s) %s fail on the implementation's call stream and output" % failed))
+    else:
+        problems.append(("spec", "write_data_block failed: %s" % [" ".join(t[4:]) for t in calls if t[4] != "ok"][:2]))
+    # (4) block-writer model on the implementation's own call trace
+    a, n, _ = parts["bw"]
+    mb = model[a:a + n]
+    for t, m in zip_eq("bw replay", calls, mb[1:-1]):
         impl = " ".join(t[4:])
         if impl != m:
             problems.append(("corr", "write_data_block(%s %s %s): impl '%s' model '%s'" % (t[1], t[2], t[3][:40], impl, m)))
             break
     if mb[-1] != "file " + tok(res["file"]):
         problems.append(("corr", "final output bytes differ from the block-writer model"))
-    for (l, me, m) in zip(fd[0], fd[1], mf):
-        if me[0] == "frag":
-            ino = res["inodes"][me[1]]
-            want = "loc %d %d" % ino["frag"]
-            if m != want:
-                problems.append(("corr", "fragment of file %d: impl '%s' model '%s'" % (me[1], want, m)))
+    # (5) fragment model on the implementation's event order
+    nfrag = 0
+    if "fd" not in parts:
+        problems.append(("corr", "fragment events do not line up with the submitted files: " + str(parts["fd_err"])))
+    else:
+        a, n, fd = parts["fd"]
+        nfrag = sum(1 for m in fd[1] if m[0] == "frag")
+        for (l, me, m) in zip_eq("fd replay", fd[0], fd[1], model[a:a + n]):
+            if me[0] == "frag":
+                ino = res["inodes"][me[1]]
+                want = "loc %d %d" % ino["frag"]
+                if m != want:
+                    problems.append(("corr", "fragment of file %d: impl '%s' model '%s'" % (me[1], want, m)))
+                    break
+            elif me[0] == "read":
+                fb = res["fb"].get(me[1])
+                if m != "read " + tok(fb or b""):
+                    problems.append(("corr", "fragment block %d: impl %s model %s" % (me[1], tok(fb or b"")[:60], m[:60])))
+                    break
+            elif m != "ok":
+                problems.append(("corr", "model refuses event '%s': %s" % (l, m)))
                 break
-        elif me[0] == "read":
-            fb = res["fb"].get(me[1])
-            if m != "read " + tok(fb or b""):
-                problems.append(("corr", "fragment block %d: impl %s model %s" % (me[1], tok(fb or b"")[:60], m[:60])))
-                break
-        elif m != "ok":
-            problems.append(("corr", "model refuses event '%s': %s" % (l, m)))
-            break
+    # (6) the call-stream model (front end, worker, pool order, I/O sequence numbers, fragment path and block writer wired
+    #     together) on the implementation's own schedule
+    if "st" not in parts:
+        problems.append(("corr", "pool events do not line up: " + str(parts["st_err"])))
+    else:
+        a, n, stc = parts["st"]
+        d = st_compare(sc, res, stc[0], stc[1], model[a:a + n])
+        if d is not None:
+            problems.append(("corr", "call-stream model: " + d))
+        stats["bp_stream_events"] += sum(1 for l in stc[0] if l in ("st-submit", "st-dequeue", "st-complete", "st-finish"))
+        stats["bp_stream_scripts"] += 1
+        # a fragment block that went to the pool while data blocks submitted *before* it were still waiting there: its
+        # I/O sequence number (taken when it was closed) differs from its position in the pool
+        ev = [t[0] for t in res["events"] if t[0] in ("S", "SC", "SF", "D")]
+        depth = 0
+        for x in ev:
+            if x == "SC" and depth > 0:
+                stats["bp_fragblock_overtakes"] += 1
+            depth += -1 if x == "D" else 1
     # statistics
     if any(t[0] == "E" and t[5] == "0" for t in res["events"]):
         stats["bp_collision_scripts"] += 1       # a (size, checksum) match between different contents was resolved by bytes
@@ -572,8 +864,8 @@ def check_bp_one(ctx, sc, out, stats, name):
                                 "inodes": {k: v for k, v in list(res["inodes"].items())[:4]}})
     stats["bp_files"] += len(sc["files"])
     stats["bp_writes"] += len(calls)
-    stats["bp_fragments"] += sum(1 for m in fd[1] if m[0] == "frag")
-    return problems, res
+    stats["bp_fragments"] += nfrag
+    return problems
 
 
 def split_outputs(lines):
@@ -601,14 +893,50 @@ def sc_from_json(d):
     return d
 
 
+def bp_packing_ok(sc, res):
+    nops = len(bp_script_lines(sc)) - 1
+    if res["end"] != 0 or any(o != "ok" for o in res["ops"]) or len(res["ops"]) != nops:
+        return "packing failed: ops=%s end=%s" % ([o for o in res["ops"] if o != "ok"][:3], res["end"])
+    if res["rderr"]:
+        return "data reader could not be set up: " + res["rderr"]
+    if res["file"] is None or sorted(res["inodes"]) != list(range(len(sc["files"]))) or any(v is None for v in res["inodes"].values()):
+        return "incomplete dump (file / inodes missing)"
+    return None
+
+
+def bp_eval_batch(ctx, batch, outs, stats):
+    """[(script, name, problems)] for the scripts of one harness run; one call of the model driver for all of them"""
+    parsed, mlines, mparts = [], [], []
+    for (sc, name), out in zip_eq("bp batch", batch, outs):
+        res = parse_bp_output(out)
+        bad = bp_packing_ok(sc, res)
+        parsed.append((res, bad))
+        if bad is None:
+            ls, parts = bp_model_script(sc, res)
+            mparts.append((len(mlines), parts))
+            mlines += ls
+        else:
+            mparts.append(None)
+    model = drv(ctx, mlines, "bp batch")
+    result = []
+    for (sc, name), (res, bad), mp in zip_eq("bp results", batch, parsed, mparts):
+        if bad is not None:
+            problems = [("spec", bad)]
+        else:
+            off, parts = mp
+            shifted = {k: ((v[0] + off, v[1], v[2]) if isinstance(v, tuple) else v) for k, v in parts.items()}
+            problems = check_bp_one(ctx, sc, res, model, shifted, stats, name)
+        result.append((sc, name, problems))
+    return result
+
+
 def check_bp(ctx, harness, n_scripts, stats, serial_harness=None):
     scripts = []
     cdir = vlib.CORPUS / "C08"
-    if cdir.exists():
-        for p in sorted(cdir.glob("bp-*.json")):
-            scripts.append((sc_from_json(json.loads(p.read_text())), "corpus:" + p.name))
+    for p in sorted(cdir.glob("bp-*.json")):
+        scripts.append((sc_from_json(json.loads(p.read_text())), "corpus:" + p.name))
     for i in range(n_scripts):
-        scripts.append((gen_bp_script(ctx.rng, big=(i % 25 == 24)), "gen:%d" % i))
+        scripts.append((gen_bp_script(ctx.rng, big=(i % 25 == 24), many_tails=(i % 80 == 79)), "gen:%d" % i))
     BATCH = 100
     for b0 in range(0, len(scripts), BATCH):
         batch = scripts[b0:b0 + BATCH]
@@ -625,8 +953,8 @@ def check_bp(ctx, harness, n_scripts, stats, serial_harness=None):
                           "real block processor aborted (rc=%s) in script %s: %s" % (rc, name, (err or "")[-600:]),
                           {"mode": "bp", "script": sc_to_json(sc), "stderr": err, "partial": rest[-20:]})
             outs = outs[:len(batch)]
-        for (sc, name), out in zip(batch, outs):
-            problems, res = check_bp_one(ctx, sc, out, stats, name)
+            batch = batch[:len(outs)]
+        for sc, name, problems in bp_eval_batch(ctx, batch, outs, stats):
             if not problems:
                 continue
             spec = [m for k, m in problems if k == "spec"]
@@ -828,8 +1156,10 @@ def check_sensitivity(ctx, harness, stats, n=60):
     text = "\n".join(l for sc in scripts for l in bp_script_lines(sc, nofile=1)) + "\n"
     lines, rc, err = run_harness(ctx, harness, text, timeout=600)
     outs, _ = split_outputs(lines or [])
+    if rc != 0 or len(outs) != len(scripts):
+        raise vlib.CheckFailure("sensitivity probe: harness exit %s, %d of %d scripts answered: %s" % (rc, len(outs), len(scripts), (err or "")[-300:]))
     wrong = 0
-    for sc, out in zip(scripts, outs):
+    for sc, out in zip_eq("sensitivity", scripts, outs):
         res = parse_bp_output(out)
         if res["end"] != 0 or res["file"] is None:
             continue
@@ -837,8 +1167,10 @@ def check_sensitivity(ctx, harness, stats, n=60):
             wrong += 1
     stats["sensitivity_scripts"] = len(outs)
     stats["sensitivity_scripts_with_wrong_data_when_hash_only"] = wrong
-    if len(outs) and wrong == 0:
-        ctx.assumptions.append("sensitivity probe found no wrong read-back in hash-only mode: the generated inputs may have lost their collisions")
+    if wrong == 0:
+        # the instrument is blind: the generated inputs no longer collide (or the probe no longer disables the comparison)
+        raise vlib.CheckFailure("sensitivity probe: none of %d scripts reads back wrongly with the byte comparison configured off under a "
+                                "<=2-bit checksum — the generated inputs have lost their collisions" % len(scripts))
 
 
 def n_bw(ctx):
@@ -849,12 +1181,29 @@ def n_bp(ctx):
     return 800 if ctx.quick() else 8000
 
 
+def n_bw_big(ctx):
+    return 40 if ctx.quick() else 400
+
+
+def n_bw_long(ctx):
+    return 6 if ctx.quick() else 60
+
+
 def gen_only(ctx):
     """advance ctx.rng exactly as run() does before the tools phase"""
     for i in range(n_bw(ctx)):
         gen_bw_script(ctx.rng, small=ctx.quick() or i % 4 != 0)
+        if i % 10 == 9:
+            if ctx.rng.random() < 0.8:
+                ctx.rng.choice([0, 1, 3, 7, 20, 60])
+            else:
+                ctx.rng.choice([1, 2, 5]); ctx.rng.randrange(100)
+    for i in range(n_bw_big(ctx)):
+        gen_bw_big_script(ctx.rng)
+    for i in range(n_bw_long(ctx)):
+        gen_bw_long_script(ctx.rng)
     for i in range(n_bp(ctx)):
-        gen_bp_script(ctx.rng, big=(i % 25 == 24))
+        gen_bp_script(ctx.rng, big=(i % 25 == 24), many_tails=(i % 80 == 79))
     for _ in range(60):
         gen_bp_script(ctx.rng); ctx.rng.choice([0, 1, 2])
 
@@ -871,18 +1220,39 @@ def run(ctx):
     check_bw(ctx, harness, n_bw(ctx), stats)
     check_bp(ctx, harness, n_bp(ctx), stats, serial_harness=None if ctx.quick() else build_harness(ctx, serial=True))
     check_sensitivity(ctx, harness, stats)
+    # fingerprint of the generator state before the tools phase: `replay` of a tools violation re-creates it with gen_only()
+    stats["rng_before_tools"] = int(vlib.sha(repr(ctx.rng.getstate()))[:8], 16)
     check_tools(ctx, stats, 4 if ctx.quick() else 40)
+    # a part of the check that evaluated nothing is a failure of the check, never a pass
+    if not ctx.violations:
+        for k in ("bw_scripts", "bw_calls", "bw_spec_scripts", "bw_monitor_evals", "bw_truncating_scripts", "bw_multichunk_scripts",
+                  "bw_long_history_scripts", "bw_4gib_scripts", "bw_fragment_block_calls", "bp_scripts", "bp_writes", "bp_fragments",
+                  "bp_monitor_evals", "bp_stream_scripts", "bp_stream_events", "bp_collision_scripts", "bp_shared_files", "bp_truncates",
+                  "bp_fragblock_overtakes", "tool_runs", "tool_files", "sensitivity_scripts"):
+            if stats[k] <= 0:
+                raise vlib.CheckFailure("part of the check evaluated nothing: %s = %d" % (k, stats[k]))
+        for place in ("flight", "open", "cache", "disk"):
+            if stats["cmp_%s_equal" % place] + stats["cmp_%s_differ" % place] <= 0:
+                raise vlib.CheckFailure("no fragment comparison read its bytes from '%s' in this run" % place)
+        if stats["bw_max_history"] <= 128:
+            raise vlib.CheckFailure("no block-writer history grew beyond INIT_BLOCK_COUNT (max %d)" % stats["bw_max_history"])
+        if stats["bp_max_distinct_tails"] <= 32:
+            raise vlib.CheckFailure("no fragment hash table grew beyond 32 entries (max %d distinct tail ends)" % stats["bp_max_distinct_tails"])
     ctx.cov.update({
         "evaluations": stats["bw_calls"] + stats["bp_writes"] + stats["bp_fragments"],
         "distinct_nontrivial": stats["bw_truncating_scripts"] + stats["bp_collision_scripts"],
         "rule": "bw: generated write_data_block sequences against the real block_writer.c (1..14 files of 1..6 blocks, sizes from a "
                 "1..3-element set, 1..3-letter alphabet, 0..3-bit checksums honest or arbitrary, 55% repeated blocks, 45% files derived "
-                "from an earlier file by prefix/extension/one flipped bit, sparse blocks, sentinels, fragment blocks between files, "
-                "sometimes 4095..9000-byte blocks). bp: files through the real block processor + hash table + thread pool linked with "
-                "xxh32 truncated to 0..8 bits (block size 8..64 and 4096; toy RLE / gzip / none; 1..4 workers; backlog 3..30; 1..40 "
-                "files from <=5 distinct blocks and <=8 tails of <=3 sizes; DONT_FRAGMENT/DONT_DEDUPLICATE/DONT_COMPRESS/DONT_HASH/"
-                "IGNORE_SPARSE, incl. all-zero nosparse tails and dont_compress twins of compressible tails). tools: gensquashfs/rdsquashfs/tar2sqfs/sqfs2tar with 0..8-bit checksum, gzip/xz/lz4/zstd, -b 4096.."
-                "131072, -j 1..16. non-trivial = bw script in which a LAST call truncated the output (deduplication hit) + bp script in "
+                "from an earlier file by prefix/extension/one flipped bit, sparse blocks, sentinels, fragment blocks between files; every "
+                "tenth script at file offsets around 4 GiB through the harness' virtual base), plus multi-chunk scripts (1..3 blocks of "
+                "4095..9000 bytes, one checksum, differences only behind the first 4096-byte chunk) and long-history scripts (150..400 "
+                "stored blocks). bp: files through the real block processor + hash table + thread pool linked with xxh32 truncated to "
+                "0..8 bits (block size 8..64 and 4096; toy RLE / gzip / none; 1..4 workers; backlog 3..30; 1..40 files from <=5 distinct "
+                "blocks and <=8 tails of <=3 sizes; DONT_FRAGMENT/DONT_DEDUPLICATE/DONT_COMPRESS/DONT_HASH/IGNORE_SPARSE, incl. all-zero "
+                "nosparse tails and dont_compress twins of compressible tails; every 80th script 40..300 distinct tails + duplicates), the "
+                "whole main-thread event order (pool submit / dequeue / write_data_block) replayed into the composed Lean model. tools: "
+                "gensquashfs/rdsquashfs/tar2sqfs/sqfs2tar with 0..8-bit checksum, gzip/xz/lz4/zstd, -b 4096..131072, -j 1..16. "
+                "non-trivial = bw script in which a LAST call truncated the output (deduplication hit) + bp script in "
                 "which a (size, checksum) match between different contents was decided by the byte comparison",
         "input_distribution": {"fragment_comparisons_by_place_and_answer": {k[4:]: v for k, v in stats.items() if k.startswith("cmp_")}},
         "stats": dict(stats),
@@ -891,18 +1261,25 @@ def run(ctx):
     })
     return ctx.finish(LEVEL, trusted_extra=[
         "modelled: lib/sqfs/src/block_writer.c, lib/util/src/file_cmp.c, the sqfs_file_t contract of lib/sqfs/src/io/file.c (POSIX branch); "
-        "process_completed_fragment / chunk_info_equals / load_frag_block / fblk_in_flight handling of lib/sqfs/src/block_processor; "
-        "the 64-bit history word as its two 32-bit halves; hash_table.c as a list (order shown immaterial by frag_lookup_unique)",
-        "harness/weak_xxh.c (the checksum hook the property prescribes), harness/h_c08.c (in-memory sqfs_file_t, logging wrappers, "
-        "link-time --wrap of the two hash-table entry points), the Python read-back oracle"],
+        "lib/sqfs/src/block_processor/{frontend.c, backend.c, block_processor.c}: front end, process_block, I/O sequence numbers, release "
+        "loop, process_completed_block, process_completed_fragment / chunk_info_equals / load_frag_block / fblk_in_flight; "
+        "the 64-bit history word as its two 32-bit halves; offsets and sizes as naturals; hash_table.c as a list (order shown immaterial "
+        "by frag_lookup_unique); the pool as a FIFO (threadpool.h contract, C09); the schedule of the main thread as an input",
+        "harness/weak_xxh.c (the checksum hook the property prescribes), harness/h_c08.c (in-memory sqfs_file_t with a virtual base, "
+        "logging wrappers around the real block writer and the real thread pool, link-time --wrap of the two hash-table entry points), "
+        "the Python read-back oracle"],
         assumptions=[
-            "codec contract unc(cmp x) = x for gzip/xz/lz4/zstd (hypothesis `Codec.RoundTrip` of the fragment theorems; proved for the toy codec, "
-            "exercised for the real ones by the read-back runs)",
-            "block-writer theorems assume the FIRST/LAST protocol `wf` of the call stream and blocks < 2^24 bytes; the protocol is checked on every "
-            "logged call stream of the real block processor, not proved here (C02 models the front end)",
-            "fragment theorems assume non-empty fragments (frontend.c only submits tail ends of size % block_size > 0 bytes)",
-            "when a fragment block moves from in flight to disk is an input of the fragment model (all timings are covered by the theorems; the "
-            "real timings come from the real pool)"])
+            "codec contracts unc(cmp x) = x and |cmp x| <= block size for gzip/xz/lz4/zstd (hypotheses `Codec.RoundTrip` / `Fits`; proved "
+            "for the toy codec, exercised for the real ones by the read-back runs)",
+            "block-writer theorems assume the protocol `wf` / `wfS` of the call stream and blocks < 2^24 bytes; both are proved of the "
+            "composed model's call stream for every schedule (stream_wfS) and evaluated (Lean predicates) on every logged call stream "
+            "of the real block processor",
+            "the composed model fails only by refusing a schedule (stream_no_error); that the real schedule is an admitted one is "
+            "checked on every run (the model accepts the real event order)",
+            "fragment theorems assume non-empty fragments (proved of the composed model: the front end only submits tail ends of "
+            "size % block_size > 0 bytes)",
+            "the 4 GiB-offset scripts compare the real writer (virtual base of zero bytes) with the model run at offset 0, shifted: "
+            "justified by bw_translate (translation invariance of the model)"])
 
 
 def replay(ctx, path):
@@ -918,15 +1295,21 @@ def replay(ctx, path):
         harness = build_harness(ctx)
         text = "\n".join(rp["lines"]) + "\n"
         impl, rc, err = run_harness(ctx, harness, text)
-        print("impl :", impl, "rc", rc, err[-500:] if err else "")
-        model = ctx.driver(["c08"], text)
-        print("model:", model)
+        print("impl :", [l[:200] for l in impl or []], "rc", rc, err[-500:] if err else "")
+        init = rp["lines"][0].split()
+        base = int(init[3]) if len(init) == 4 else 0
+        model = drv(ctx, [" ".join(init[:3])] + rp["lines"][1:], "replay")
+        print("model:", [l[:200] for l in model])
         calls = []
         for l in rp["lines"][1:-1]:
             _, c, f, b = l.split()
             calls.append((int(c, 16), int(f, 16), untok(b)))
-        final = untok(impl[-1].split()[1]) if impl and impl[-1].startswith("file ") else b""
-        bad = bw_oracle(calls, impl[1:-1], final) if impl and rc == 0 else ["crash"]
+        if not impl or rc != 0 or len(impl) != len(rp["lines"]):
+            print("real block writer crashed or answered short")
+            return 1
+        impl = shift_base(impl, base)
+        final = untok(impl[-1].split()[1]) if impl[-1].startswith("file ") else b""
+        bad = bw_oracle(calls, impl[1:-1], final)
         print("read-back problems:", bad)
         return 1 if bad or impl != model else 0
     if mode == "bp":
@@ -937,7 +1320,12 @@ def replay(ctx, path):
         if rc != 0:
             print("harness exit", rc, err[-1500:])
             return 1
-        problems, _ = check_bp_one(ctx, sc, lines, defaultdict(int), "replay")
+        outs, _ = split_outputs(lines or [])
+        if len(outs) != 1:
+            print("harness did not finish the script")
+            return 1
+        ctx.c08_samples = []
+        (_, _, problems), = bp_eval_batch(ctx, [(sc, "replay")], outs, defaultdict(int))
         for k, m in problems:
             print(k.upper(), m)
         return 1 if problems else 0
